@@ -203,7 +203,7 @@ Definition dispatch (op : string) (args : list tok) : option (outcome (list tok)
         match ProtectedImpl.create (Z.to_nat len) 195 O with
         | Ok w0 =>
             let steps := ProtectedImpl.run w0 ops' in
-            let obs w := let '(a, b, c, d, e) := ProtectedImpl.observe w in TL [TI a; TI b; TI c; TI d; TI e] in
+            let obs w := let '(a, b, c, d, e) := ProtectedImpl.observe w in TL [TI a; TI b; TI c; TI d; TI e; TL (map TI (ProtectedImpl.observe_clones w))] in
             let wl := ProtectedImpl.last_ok w0 steps in
             let '(_, regs) := ProtectedImpl.drop_all wl in
             let final := fold_right (fun r a => (ProtectedImpl.locked_pages r + a)%nat) O regs in
